@@ -3,7 +3,7 @@
 # Like seedcheck.sh, but applies the seeded change to a scratch worktree (/tmp/wt_seed, created on demand at
 # /repo's HEAD) and points the check at it with VERIF_REPO, so /repo itself is never touched.
 patch=$1; id=$2; tier=${3:-quick}
-wt=/tmp/wt_seed
+wt=${SEED_WT:-/tmp/wt_seed}
 if [ ! -d $wt ]; then git -C /repo worktree add -q --detach $wt HEAD || exit 9; fi
 cd $wt || exit 9
 git checkout -q --detach $(git -C /repo rev-parse HEAD) 2>/dev/null; git checkout -q -- . ; git clean -fdq
